@@ -174,18 +174,19 @@ def run(ck):
         all_lines += lines; all_index += index
         for it in b:
             by_k[it[0]] = it
+    batch_of = {it[0]: b for b in batches for it in b}
     for k_, ops, tt in items:
         key = tuple((g, op, arg) for g, op, arg, _ in ops)
         nontriv = any(op == "store" for _, op, _, _ in ops) and any(op in ("flush",) or (op == "stmt" and a == (7,)) for _, op, a, _ in ops)
         ck.case(key, nontriv)
-    _validate(ck, exe, all_lines, all_index, by_k)
+    _validate(ck, exe, all_lines, all_index, by_k, 0, batch_of)
     ck.sample({"history": [dict(op=o[1], arg=list(o[2]), id=o[3]) for o in items[len(behs) // 2][1]]})
     ck.sample({"random_history_two_loggers": [dict(lg=o[0], op=o[1], arg=list(o[2]), id=o[3]) for o in items[len(behs)][1][:20]]})
     ck.extra["histories_from_tlc"] = len(behs)
     ck.extra["histories_random"] = nrand
 
 
-def _validate(ck, exe, lines, index, by_k, depth=0):
+def _validate(ck, exe, lines, index, by_k, depth=0, batch_of=None):
     rt = sysh.validate_trace("TraceBacktrace", "TraceBacktrace.cfg", lines, timeout=900)
     if rt.error:
         raise vlib.Infra(rt.error)
@@ -200,29 +201,41 @@ def _validate(ck, exe, lines, index, by_k, depth=0):
     k, j = index[l - 1]
     it = by_k[k]
     ck.traces_validated += sum(1 for ln in lines[:l - 1] if ln["op"] == "reset")
-    # confirm by re-running that behaviour alone (verdict rule: the rejection must repeat)
-    rc, evs = sysh.run(exe, _batch_script([it]))
-    l2, i2 = _trace_lines([it], evs)
-    r2 = sysh.validate_trace("TraceBacktrace", "TraceBacktrace.cfg", l2)
-    if r2.error:
-        raise vlib.Infra(r2.error)
-    if r2.violated:
-        jj = i2[r2.trace[-1]["l"] - 2][1]
-        sig = _sig(it[1], jj)
-        ck.violation(sig, f"history {[(o[0], o[1], o[2]) for o in it[1][:jj + 1]]}: sink received {l2[r2.trace[-1]['l'] - 2]['out']}",
-                     {"script": _batch_script([it]), "trace": l2, "harness": "h_sys UB 65536", "rejected_line": r2.trace[-1]["l"] - 1})
-    else:
-        ck.drifted(f"rejection of behaviour {k} did not repeat in isolation")
+    # verdict rule: the rejection must repeat. First the behaviour alone, then (a failure may depend on what ran
+    # before it in the same process, e.g. an out-of-bounds read) the whole batch it was part of.
+    confirmed = False
+    for items in ([it], batch_of[k] if batch_of else None):
+        if not items:
+            continue
+        rc, evs = sysh.run(exe, _batch_script(items), timeout=600)
+        l2, i2 = _trace_lines(items, evs)
+        r2 = sysh.validate_trace("TraceBacktrace", "TraceBacktrace.cfg", l2)
+        if r2.error:
+            raise vlib.Infra(r2.error)
+        if r2.violated:
+            kk, jj = i2[r2.trace[-1]["l"] - 2]
+            ops = by_k[kk][1]
+            got = l2[r2.trace[-1]['l'] - 2]['out']
+            crashed = got == [-1]
+            ck.violation("bt:process-died" if crashed else _sig(ops, jj),
+                         (f"the process died (crash in the real code) at or before history {[(o[0], o[1], o[2]) for o in ops[:jj + 1]]}"
+                          if crashed else f"history {[(o[0], o[1], o[2]) for o in ops[:jj + 1]]}: sink received {got}")
+                         + ("" if len(items) == 1 else " (inside a batch of histories in one process)"),
+                         {"script": _batch_script(items), "harness": "h_sys UB 65536", "rejected_line": r2.trace[-1]["l"] - 1})
+            confirmed = True
+            break
+    if not confirmed:
+        ck.drifted(f"rejection of behaviour {k} repeated neither alone nor in its batch")
+        ck.extra["unconfirmed_rejections"] = ck.extra.get("unconfirmed_rejections", 0) + 1
+    if len(ck.violations) >= 8 or depth >= 30:
+        if not ck.violations:
+            raise vlib.Infra("many contract rejections that do not repeat: nondeterministic harness or code")
+        return
     # continue with the rest of the trace (skip the offending behaviour) so the remainder is still checked
-    if depth < 12:
-        # cut out behaviour k
-        start = l - 1
-        while start > 0 and lines[start]["op"] != "reset":
-            start -= 1
-        end = l
-        while end < len(lines) and lines[end]["op"] != "reset":
-            end += 1
-        _validate(ck, exe, lines[end:], index[end:], by_k, depth + 1)
+    end = l
+    while end < len(lines) and lines[end]["op"] != "reset":
+        end += 1
+    _validate(ck, exe, lines[end:], index[end:], by_k, depth + 1, batch_of)
 
 
 def replay(ck, path):
